@@ -398,7 +398,7 @@ class Parser:
         if self.py_version >= min_version:
             return node
         else:
-            raise SyntaxError(f"{error_msg} is only supported in Python {min_version} and above.")
+            raise self.make_syntax_error(f"{error_msg} only supported in Python {min_version} and above.")
 
     def raise_indentation_error(self, msg: str) -> None:
         """Raise an indentation error."""
@@ -488,10 +488,17 @@ class Parser:
 
         return s.encode()[0]
 
+    def _eval_string_token(self, tok: TokenInfo) -> Any:
+        """Value of a STRING token; an invalid literal is reported at the token, not inside it."""
+        try:
+            return ast.literal_eval(tok.string)
+        except SyntaxError as e:
+            self.raise_syntax_error_known_location(e.msg, tok)
+
     def _concat_strings_in_constant(self, parts: list[TokenInfo]) -> ast.Constant:
-        s = ast.literal_eval(parts[0].string)
+        s = self._eval_string_token(parts[0])
         for ss in parts[1:]:
-            value = ast.literal_eval(ss.string)
+            value = self._eval_string_token(ss)
             if isinstance(value, bytes) != isinstance(s, bytes):
                 self.raise_syntax_error_known_location("cannot mix bytes and nonbytes literals", ss)
             s += value
